@@ -499,8 +499,13 @@ class CompositeFrontend(ConstrainedFrontend):
             for o in others:
                 o._owned_solvers.discard(s)
 
-            # the shared child has not been checked on behalf of the merged solver
-            merged._store_child(s)
+            # The shared child has not been checked on behalf of the merged solver. It is registered under the names it
+            # is registered under here, not under all of its variables: a redundant child that mentions variables which
+            # another child is registered for (the merged solver of an earlier query) would otherwise displace that
+            # child, and its constraints would be lost.
+            for name in [n for n, c in self._solvers.items() if c is s]:
+                merged._solvers[name] = s
+            merged._unchecked_solvers.add(s)
 
         noncommon_solvers = [[s for s in cs._solver_list if id(s) not in common_ids] for cs in [self, *others]]
 
